@@ -357,6 +357,7 @@ func genRaceTable(repo, out string) {
 	}
 	info := map[string]*finfo{}
 	var fieldWrites []string
+	var serialRows []string // every access to a field named Serial (the file-name generator's counter)
 	for _, fn := range fnames {
 		fd := k.methods[fn]
 		fi := &finfo{fields: map[string]bool{}, calls: map[string]bool{}, callers: map[string]bool{}}
@@ -438,6 +439,37 @@ func genRaceTable(repo, out string) {
 			}
 			return true
 		})
+		{
+			// the serial of a name generator: how each occurrence of <x>.Serial in this function is used
+			viaAtomic := map[ast.Expr]string{}
+			ast.Inspect(fd.Body, func(n ast.Node) bool {
+				if c, ok := n.(*ast.CallExpr); ok && strings.HasPrefix(typeName(c.Fun), "atomic.") {
+					for _, a := range c.Args {
+						if u, ok := a.(*ast.UnaryExpr); ok && u.Op == token.AND {
+							viaAtomic[u.X] = typeName(c.Fun)
+						}
+					}
+				}
+				return true
+			})
+			ast.Inspect(fd.Body, func(n ast.Node) bool {
+				se, ok := n.(*ast.SelectorExpr)
+				if !ok || se.Sel.Name != "Serial" {
+					return true
+				}
+				kind := "plain-read"
+				if a, ok := viaAtomic[ast.Expr(se)]; ok {
+					kind = a
+				} else if written[ast.Expr(se)] {
+					kind = "plain-write"
+				} else {
+					// &x.Serial handed to anything but sync/atomic: the address escapes
+					kind = "plain-read"
+				}
+				serialRows = append(serialRows, fmt.Sprintf("(%q, %q)", fn, kind))
+				return true
+			})
+		}
 		ast.Inspect(fd.Body, func(n ast.Node) bool {
 			se, ok := n.(*ast.SelectorExpr)
 			if !ok {
@@ -507,6 +539,7 @@ func genRaceTable(repo, out string) {
 	b.WriteString("Definition guarded_accesses : list (string * list string * bool * list string) :=\n  [" + strings.Join(grows, ";\n   ") + "].\n\n")
 	sort.Strings(fieldWrites)
 	b.WriteString("Definition shared_field_writes : list (string * string) :=\n  [" + strings.Join(fieldWrites, ";\n   ") + "].\n\n")
+	b.WriteString("Definition serial_accesses : list (string * string) :=\n  [" + strings.Join(serialRows, ";\n   ") + "].\n\n")
 	sort.Strings(mutRows)
 	b.WriteString("Definition global_mutator_calls : list (string * string * bool) :=\n  [" + strings.Join(mutRows, ";\n   ") + "].\n")
 	if err := os.WriteFile(out, []byte(b.String()), 0o644); err != nil {
